@@ -119,7 +119,8 @@ Theorem pop_link_spec h a pvt t b :
   exists h', token_pop_link_from_chain h t = Some h' /\ length h' = length h /\
     seg h' 0 (a ++ pvt :: b) 0 /\ rd h' (hd pvt a) Ftl = Some (List.last b pvt) /\
     rd h' t Fnx = Some 0 /\ rd h' t Fpv = Some 0 /\ rd h' t Ftl = Some t /\
-    (forall j g, j <> t -> j <> pvt -> j <> hd 0 b -> j <> hd pvt a -> rd h' j g = rd h j g).
+    (forall j g, ~ (j = t /\ g = Fnx) -> ~ (j = t /\ g = Fpv) -> ~ (j = t /\ g = Ftl) -> ~ (j = pvt /\ g = Fnx) -> ~ (j = hd 0 b /\ g = Fpv) ->
+                 ~ (j = hd pvt a /\ g = Ftl) -> rd h' j g = rd h j g).
 Proof.
   intros HS ND.
   set (nb := hd 0 b).
@@ -196,7 +197,7 @@ Proof.
   assert (Nthd : t <> hd pvt a).
   { destruct a as [|y a']; cbn [hd]; [exact Ntp|]. destruct (Ha y (or_introl eq_refl)) as (_ & ? & _). apply not_eq_sym. assumption. }
   split; [fin|]. split; [fin|]. split; [fin|].
-  intros j g H1 H2 H3 H4. fold nb in H3. fin.
+  intros j g H1 H2 H3 H4 H5 H6. fold nb in H5. frame_tac.
 Qed.
 
 (* ... and t the head of its chain: the rest becomes a chain of its own (its head does not learn the
@@ -205,7 +206,7 @@ Theorem pop_head_spec h t b :
   seg h 0 (t :: b) 0 -> NoDup (t :: b) ->
   exists h', token_pop_link_from_chain h t = Some h' /\ length h' = length h /\
     seg h' 0 b 0 /\ rd h' t Fnx = Some 0 /\ rd h' t Fpv = Some 0 /\ rd h' t Ftl = Some t /\
-    (forall j g, j <> t -> j <> hd 0 b -> rd h' j g = rd h j g).
+    (forall j g, ~ (j = t /\ g = Fnx) -> ~ (j = t /\ g = Fpv) -> ~ (j = t /\ g = Ftl) -> ~ (j = hd 0 b /\ g = Fpv) -> rd h' j g = rd h j g).
 Proof.
   intros HS ND.
   set (nb := hd 0 b).
@@ -239,5 +240,5 @@ Proof.
       assert (z <> nb) by (unfold nb; cbn [hd]; intro X; rewrite X in Hz; inversion NDb; contradiction).
       split; fin. }
   split; [fin|]. split; [fin|]. split; [fin|].
-  intros j g H1 H2. fold nb in H2. fin.
+  intros j g H1 H2 H3 H4. fold nb in H4. frame_tac.
 Qed.
